@@ -62,6 +62,10 @@ pub struct Ctx {
     pub limit: Option<u64>,
     pub trace: Option<std::fs::File>,
     pub miri: bool,
+    /// multiplier applied to the case count of every randomized family (thorough tier only)
+    pub scale: u64,
+    /// fuzzing: the case's generator reads its choices from these bytes (see Rng::from_tape)
+    pub tape: Option<std::sync::Arc<Vec<u8>>>,
 
     pub evals: u64,
     pub sigs: HashSet<u64>,
@@ -128,6 +132,24 @@ pub fn lc(n: usize) -> u8 {
     }
 }
 
+/// Thorough tier: every randomized family runs `scale` times the case count its monitor asks for
+/// (on top of the monitor's own quick/thorough numbers). Sized so that a thorough run of one property
+/// stays within minutes on 16 cores; `VERIF_THOROUGH_SCALE` overrides.
+pub fn thorough_scale(prop: &str, tier: Tier) -> u64 {
+    if tier != Tier::Thorough || cfg!(miri) {
+        return 1;
+    }
+    if let Some(v) = std::env::var("VERIF_THOROUGH_SCALE").ok().and_then(|v| v.parse::<u64>().ok()) {
+        return v.max(1);
+    }
+    match prop {
+        "C01" => 2,
+        "C06" | "C07" | "C10" => 4,
+        "C13" => 6,
+        _ => 10,
+    }
+}
+
 impl Ctx {
     pub fn new(prop: &str, tier: Tier, seed: u64, shard: u64, nshards: u64) -> Ctx {
         Ctx {
@@ -141,6 +163,8 @@ impl Ctx {
             limit: None,
             trace: None,
             miri: cfg!(miri),
+            scale: thorough_scale(prop, tier),
+            tape: None,
             evals: 0,
             sigs: HashSet::new(),
             counters: BTreeMap::new(),
@@ -180,15 +204,25 @@ impl Ctx {
             return;
         }
         let fh = hash_str(name);
+        let n = n.saturating_mul(self.scale.max(1));
         let n = self.limit.map(|l| n.min(l)).unwrap_or(n);
-        for idx in 0..n {
+        // a single selected case is run directly (replay, fuzzing) instead of scanning the index range
+        let range = match &self.only {
+            Some((_, i)) if *i < n => *i..*i + 1,
+            Some(_) => 0..0,
+            None => 0..n,
+        };
+        for idx in range {
             if !self.selected(name, idx) {
                 continue;
             }
             let mut case = Case {
                 family: name,
                 idx,
-                rng: Rng::new(mix(mix(self.seed, fh), idx)),
+                rng: match &self.tape {
+                    Some(t) => Rng::from_tape(t.clone()),
+                    None => Rng::new(mix(mix(self.seed, fh), idx)),
+                },
             };
             self.cur = (name, idx);
             if let Some(t) = &mut self.trace {
